@@ -90,6 +90,10 @@ def make_jobs(ctx, nfn: int, wd: Path):
     jobs.append({"workdir": str(wd), "mod": "c06m_t", "helper": helper,
                  "sources": {helper: L.HELPER_SRC, "c06g": L.HELPER2_SRC, "c06m_t": g0.header() + L.TEMPLATES},
                  "fns": L.template_names(), "seed": 0, "npoints": 14, "known_keys": ctx.known_keys})
+    # closures, decorated functions, partials, lambdas, nested defs, default values (seed-independent)
+    jobs.append({"workdir": str(wd), "mod": "c06m_c", "helper": helper, "whole": True,
+                 "sources": {helper: L.HELPER_SRC, "c06g": L.HELPER2_SRC, "c06m_c": g0.header() + L.CLOSURE_TEMPLATES},
+                 "fns": L.CLOSURE_NAMES, "seed": 0, "npoints": 10, "known_keys": ctx.known_keys})
     # the library's own rate laws (mxlpy.fns), as shipped
     try:
         import ast as _ast
@@ -374,13 +378,14 @@ def judge_fn(ctx, job, res, resps):
                                   "real _check_branch / _always_returns vs Lean branchOk / checkBranchG / bodyReturns")
         if ren is None and resp.get("classes") is not None and res.get("stmt_classes"):
             canon = {"Expr": "Pass", "Import": "ImportFrom"}
-            for rc, mcls in zip(res["stmt_classes"], resp["classes"]):
+            for rc, mcls in zip(res["stmt_classes"], resp["classes"][res.get("n_pre", 0):]):
                 ctx.hist["helper:stmt_class"] = ctx.hist.get("helper:stmt_class", 0) + 1
                 if mcls == "<any other class>":
                     continue  # encoder: a statement kind (or an Assign target shape) the model has no constructor for
                 if canon.get(rc, rc) != mcls:
                     ctx.add_drift(case, rc, mcls, "ast class of a statement vs the class its model constructor stands for")
-            if res.get("ret_class") and resp.get("ret_class") and resp["ret_class"] != "<any other class>":
+            if (res.get("ret_class") and resp.get("ret_class") and resp["ret_class"] != "<any other class>"
+                    and not res.get("n_pre")):
                 ctx.hist["helper:expr_class"] = ctx.hist.get("helper:expr_class", 0) + 1
                 if res["ret_class"] != resp["ret_class"]:
                     ctx.add_drift(case, res["ret_class"], resp["ret_class"], "ast class of the returned expression vs the model constructor's")
